@@ -40,6 +40,10 @@ QUICK_PROGRAMS = [
     ('p', 'lab:0|lab:0|lab:1', 1, True),
     ('p', 'linc:0:1,linc:1:2|col', 1, True),
     ('p', 'lab:0,rem:0|lab:0|clr', 1, True),
+    # world q: the children for label values 0 and 1 exist BEFORE the threads start (set-up outside the schedule)
+    ('q', 'lab:0|rem:0', 1, True),
+    ('q', 'lab:0,lab:1|clr', 1, True),
+    ('q', 'linc:0:1|rem:0', 1, False),
     ('c', 'reg:1,unreg:1|col', 1, True),
     ('ce', 'rcol:1|reg:2', 1, True),
     ('ce', 'rrcol:1|reg:2', 1, True),
@@ -57,6 +61,8 @@ THOROUGH_PROGRAMS = [
     ('cp', 'linc:0:1,inc:0:1|linc:0:2,col|lab:0', 3, True),
     ('p', 'linc:0:1|linc:1:2|col,col', 3, True),
     ('p', 'lab:0,clr|lab:0,lab:1|rem:1', 3, True),
+    ('q', 'lab:0,lab:1|rem:0,rem:1|clr', 2, True),
+    ('q', 'linc:0:1,linc:1:1|clr|col', 2, False),
     ('c', 'reg:1,unreg:1|reg:2,unreg:2|col', 3, True),
     ('ce', 'rcol:1|rcol:2|col', 2, True),
     ('cpe', 'rcol:1,inc:0:1|linc:0:1,col', 2, True),
@@ -143,7 +149,7 @@ class World:
         self.tls = threading.local()
         self.R = CollectorRegistry()
         self.c = Counter('c', 'h', registry=self.R) if 'c' in flags else None
-        self.p = Counter('p', 'h', ['l'], registry=self.R) if 'p' in flags else None
+        self.p = Counter('p', 'h', ['l'], registry=self.R) if ('p' in flags or 'q' in flags) else None
         self.s = Summary('s', 'h', registry=self.R) if 's' in flags else None
         self.h = Histogram('hh', 'h', buckets=(1.0, 2.0), registry=self.R) if 'h' in flags else None
         self.X = {i: XCollector(i) for i in range(1, 5)}
@@ -152,6 +158,8 @@ class World:
             self.E = ReentrantCollector(self)
             self.R.register(self.E)
         self.children = []               # keeps every child returned alive so id() stays unique
+        if 'q' in flags:                 # set-up phase: the children exist before the threads start
+            self.children += [self.p.labels('0'), self.p.labels('1')]
         self.held = []                   # sequence of raw values the counter `c` held (sampled at every scheduling step)
 
     def sample(self):
@@ -520,7 +528,7 @@ class ModelSets:
 
     @staticmethod
     def line(backend, flags, program):
-        world = ''.join(ch for ch in flags if ch in 'cp') or '-'
+        world = ''.join(ch for ch in flags if ch in 'cpq') or '-'
         return 'c02 outcomes %s %s %s' % (backend, world, program)
 
     def prefetch(self, keys):
@@ -663,7 +671,7 @@ def run(ctx):
     warnings.filterwarnings('ignore')
     quick = ctx.tier == 'quick'
     widen = bool(ctx.broken)
-    budget_total = (34.0 if quick else 420.0) * (1.5 if widen else 1.0)
+    budget_total = (38.0 if quick else 420.0) * (1.5 if widen else 1.0)
     ctx.deadline = time.time() + budget_total
     programs = list(QUICK_PROGRAMS) + ([] if quick else list(THOROUGH_PROGRAMS))
     if not quick:
